@@ -104,7 +104,7 @@ def _j(v):
 
 
 def build(params, data=b""):
-    img = refpe.build_pe(arch=params["arch"], compile_stamp=params["compile"], export_stamp=params["export"] or 0, e_lfanew=params["lf"], magic_mz=params["mz"], magic_pe=params["pem"], data=data, with_export=params["export"] is not None, append=params["append"])
+    img = refpe.build_pe(arch=params["arch"], compile_stamp=params["compile"], export_stamp=params["export"] or 0, e_lfanew=params["lf"], magic_mz=params["mz"], magic_pe=params["pem"], data=data, with_export=params["export"] is not None, append=params["append"], export_at=params.get("export_at", 0x10))
     return params["prepend"] + img
 
 
@@ -159,6 +159,13 @@ def chunk_params(chunk, acc):
         p = base_params(arch=arch, lf=lf, export=ex, compile=compiles[(ex or 0) % len(compiles)])
         blob = build(p)
         check_image(acc, lambda: io.BytesIO(blob), p, "export")
+        if ex is not None:
+            # the export directory as the first bytes of its section, and ending exactly with its section
+            for at in (0, 0x1D8):
+                for pre in (b"", b"\x90" * 5):
+                    p2 = dict(p, export_at=at, prepend=pre)
+                    blob2 = build(p2)
+                    check_image(acc, lambda: io.BytesIO(blob2), p2, "export-position")
     for comp in compiles:
         for mz in MZ:
             for pem in PEM:
